@@ -378,7 +378,7 @@ func verifRunOp(f []string) (res string) {
 	switch f[1] {
 	case "hash":
 		verifSetCfg(f[2])
-		return "s" + hx(HashName(unhx(f[3])))
+		return "s" + hx(HashName(unhx(f[3][1:])))
 	case "email":
 		if IsEmail(unhx(f[2])) {
 			return "t"
